@@ -150,6 +150,24 @@ def check(model: Model, run: Run) -> None:
         ok = lfb is not None and lfb[1].get(room) == 1 and lfb[0] == 0 and counted == in_msg and bool(ys)
         run.check(ok, msgs.qualname, '%s budget = msg_size - len(%s); message also holds %s' % (meth, '+'.join(sorted(counted)), sorted(in_msg)), msgs.loc(c), 'every buffer written into the same UPDATE (%s) must be subtracted from the room given to %s' % (sorted(in_msg), meth))
 
+    # ------------------------------------------------------------------ R6 the classic NLRI field only for routes its NEXT_HOP can describe
+    run.rule('C09.R6', 'an announced route is packed into the NLRI field of the UPDATE itself (next hop = the NEXT_HOP attribute, an IPv4 address) only when its own next hop is IPv4: the branch that moves a bare NLRI into that list looks at the next hop of the route', floor=1)
+    n6 = 0
+    for lp in walk_no_nested(msgs.node):
+        if not (isinstance(lp, ast.For) and isinstance(lp.target, ast.Name) and any(isinstance(x, ast.Attribute) and dotted(x) == 'self._announces' for x in ast.walk(lp.iter))):
+            continue
+        rv = lp.target.id
+        nl = [nm for nm in ml.defs if any(isinstance(v, ast.Attribute) and dotted(v) == rv + '.nlri' for v in ml.values(nm))]
+        nh = [nm for nm in ml.defs if any(isinstance(v, ast.Attribute) and dotted(v) == rv + '.nexthop' for v in ml.values(nm))]
+        for c in walk_no_nested(lp):
+            if isinstance(c, ast.Call) and isinstance(c.func, ast.Attribute) and c.func.attr == 'append' and isinstance(c.func.value, ast.Name) and c.args and isinstance(c.args[0], ast.Name) and c.args[0].id in nl:
+                n6 += 1
+                g6 = [t for t, pol in flat_guards(msgs.node, c) if pol]
+                looks = any(ml.depends_on(t, nh + [rv + '.nexthop']) or (rv + '.nexthop') in norm(t) for t in g6)
+                run.check(looks, msgs.qualname, 'bare NLRI moved to the NLRI-field list only after looking at the route next hop', msgs.loc(c), 'an IPv4 route whose next hop is IPv6 (RFC 8950 extended next hop) must travel in MP_REACH_NLRI with its own next hop; in the NLRI field it is announced with the NEXT_HOP attribute, which cannot hold it: the route goes out with no usable next hop')
+    if n6 == 0:
+        run.cannot('messages(): the branch moving announced NLRIs into the NLRI-field list was not found')
+
     # ------------------------------------------------------------------ R2 predictor = writer
     run.rule('C09.R2', 'length predictors agree with the writers on the extended-length switch: payload > 255 means a 4-byte attribute header in _attr_len, _attribute_header, Attribute._attribute and Attribute._len', floor=3)
     al = model.func(MPC + '._attr_len')
